@@ -9,6 +9,8 @@ open Afkak.Consumer Afkak.Monitor Afkak.Consts
 structure G (cfg : Cfg) (s : St) : Prop where
   g1 : G1 s
   sf : Gsf s
+  res : Gres s
+  ack : Gack s
 
 /-- `x` is a good successor of `s`: the invariant holds and the executing generator is untouched. -/
 def Good (cfg : Cfg) (s x : St) : Prop := G cfg x ∧ x.frame = s.frame
@@ -32,15 +34,25 @@ macro "g1_fields" : tactic => `(tactic|
 macro "gsf_fields" : tactic => `(tactic|
   (constructor <;> ((try unfold emit at *); grind [C02.sfStep, C02.sfIssue, C02.sfDone, activeReq, retryPending, runR_cons])))
 
+/-- close `Gres X` likewise -/
+macro "gres_fields" : tactic => `(tactic|
+  (constructor <;> ((try unfold emit at *); grind [C03.resStep, runR_cons])))
+
+/-- close `Gack X` likewise -/
+macro "gack_fields" : tactic => `(tactic|
+  (constructor <;> ((try unfold emit at *); grind [C03.ackStep, ackJ_congr, ackJ_cons, ackJ_commitOk, ackJ_offsetFetch, runR_cons])))
+
 /-- `Good cfg s X` for an explicit update `X` of `x`, from `hx : Good cfg s x`. -/
 syntax "leaf" ident : tactic
 macro_rules
   | `(tactic| leaf $hx) => `(tactic|
       (obtain ⟨⟨⟨h1, h2, h2b, h3, h4, h5, h6, h7, h8, h9, h10, h11, h12, h13⟩,
-                ⟨k1, k2, k3, k4⟩⟩, hfr⟩ := $hx
-       refine ⟨⟨?_, ?_⟩, ?_⟩
+                ⟨k1, k2, k3, k4, k5, k6⟩, ⟨r1, r2⟩, ⟨a1, a2, a3⟩⟩, hfr⟩ := $hx
+       refine ⟨⟨?_, ?_, ?_, ?_⟩, ?_⟩
        · g1_fields
        · gsf_fields
+       · gres_fields
+       · gack_fields
        · first | exact hfr | (simp only []; exact hfr) | grind))
 
 /-- `G cfg X` for an explicit update `X` of `x` (which may replace the frame), from `hx : G cfg x`. -/
@@ -48,10 +60,12 @@ syntax "gleaf" ident : tactic
 macro_rules
   | `(tactic| gleaf $hx) => `(tactic|
       (obtain ⟨⟨h1, h2, h2b, h3, h4, h5, h6, h7, h8, h9, h10, h11, h12, h13⟩,
-               ⟨k1, k2, k3, k4⟩⟩ := $hx
-       refine ⟨?_, ?_⟩
+               ⟨k1, k2, k3, k4, k5, k6⟩, ⟨r1, r2⟩, ⟨a1, a2, a3⟩⟩ := $hx
+       refine ⟨?_, ?_, ?_, ?_⟩
        · g1_fields
-       · gsf_fields))
+       · gsf_fields
+       · gres_fields
+       · gack_fields))
 
 /-- `Pres cfg h` for a handler that calls no other handler: unfold and check every path. -/
 syntax "pres_leaf" "[" ident* "]" : tactic
@@ -62,17 +76,34 @@ macro_rules
        unfold $ds*
        (try unfold emit)
        obtain ⟨⟨⟨h1, h2, h2b, h3, h4, h5, h6, h7, h8, h9, h10, h11, h12, h13⟩,
-                ⟨k1, k2, k3, k4⟩⟩, hfr⟩ := hx
-       refine ⟨⟨?_, ?_⟩, ?_⟩
+                ⟨k1, k2, k3, k4, k5, k6⟩, ⟨r1, r2⟩, ⟨a1, a2, a3⟩⟩, hfr⟩ := hx
+       refine ⟨⟨?_, ?_, ?_, ?_⟩, ?_⟩
        · g1_fields
        · gsf_fields
+       · gres_fields
+       · gack_fields
        · grind))
+
+/-- the outstanding fetch/offset request is never the commit request -/
+theorem sf_ne_commit {cfg : Cfg} {s : St} (hs : G cfg s) (r : CommitReq) (hr : s.commitReq = some r) :
+    (runR C02.sfStep {} s.out).req ≠ some r.k := by
+  rw [hs.sf.sfReq]
+  intro h
+  cases hq : s.requestD with
+  | none => rw [hq] at h; simp [activeReq] at h
+  | parked k => rw [hq] at h; simp [activeReq] at h
+  | pending k kind c =>
+    rw [hq] at h
+    cases c with
+    | true => simp [activeReq] at h
+    | false =>
+      simp only [activeReq, Option.some.injEq] at h
+      exact hs.g1.idsNe k kind false r hq hr h
 
 theorem crash_pres (cfg : Cfg) (site : String) : Pres cfg (crash site) := by pres_leaf [crash]
 theorem emitAct_pres (cfg : Cfg) (a : Act) : Pres cfg (emit (.act a)) := by pres_leaf []
 theorem probe_pres (cfg : Cfg) : Pres cfg probe := by pres_leaf [probe]
 theorem startErrback_pres (cfg : Cfg) (f : Fail) : Pres cfg (startErrback f) := by pres_leaf [startErrback]
-theorem doFetch_pres (cfg : Cfg) : Pres cfg (doFetch cfg) := by pres_leaf [doFetch startErrback errbackRaises]
 theorem retryFetch_pres (cfg : Cfg) (a : Option Rat) : Pres cfg (retryFetch cfg a) := by pres_leaf [retryFetch]
 theorem looperReset_pres (cfg : Cfg) : Pres cfg (looperReset cfg) := by pres_leaf [looperReset]
 theorem handleAutoCommitError_pres (cfg : Cfg) (f : Fail) : Pres cfg (handleAutoCommitError f) := by
@@ -81,7 +112,15 @@ theorem handleProcessorError_pres (cfg : Cfg) (f : Fail) : Pres cfg (handleProce
   pres_leaf [handleProcessorError startErrback]
 theorem stopRetry_pres (cfg : Cfg) : Pres cfg stopRetry := by pres_leaf [stopRetry]
 theorem stopTimers_pres (cfg : Cfg) : Pres cfg stopTimers := by pres_leaf [stopTimers]
-theorem stopFinish_pres (cfg : Cfg) : Pres cfg stopFinish := by pres_leaf [stopFinish crash]
+/-- `stop()`'s last statements, once the refetch timer is gone -/
+theorem stopFinish_good {cfg : Cfg} {s0 s : St} (h : Good cfg s0 s) (hq : retryPending s.retryCall = false) :
+    Good cfg s0 (stopFinish s) := by
+  unfold stopFinish crash
+  simp only []
+  split
+  · leaf h
+  · leaf h
+  · leaf h
 theorem sendCommitRequest_pres (cfg : Cfg) (d : Option Rat) (a : Option Nat) : Pres cfg (sendCommitRequest cfg d a) := by
   pres_leaf [sendCommitRequest crash]
 
